@@ -23,7 +23,7 @@ import c04deltas as CD
 sys.path.insert(0, os.path.join(vlib.VERIF, "tools", "translate"))
 
 THEOREMS = ["C04_doc_literals_lex", "C04_errors_or_sentence", "C04_check_all_sound", "C04_check_discriminates", "C04_complete_partial",
-            "C04_accessors_reach", "C04_accessors_cover_refuted", "C04_complete_for", "C04_complete_type", "C04_complete_rangelist", "C04_complete_rangesuffix", "C04_complete_checker_sound", "C04_complete_all", "C04_complete_iffree", "C04_complete_iffree_sub", "C04_complete_parse", "C04_token_level_refines", "C04_token_level_frame"]
+            "C04_accessors_reach", "C04_accessors_cover_refuted", "C04_complete_for", "C04_complete_type", "C04_complete_rangelist", "C04_complete_rangesuffix", "C04_complete_checker_sound", "C04_complete_all", "C04_complete_restricted_if", "C04_complete_restricted_if_sub", "C04_complete_parse", "C04_token_level_refines", "C04_token_level_frame"]
 TRANSLATORS = ["t_tokens", "t_lextables", "t_grammar", "t_ast", "t_docgrammar"]
 TRUSTED = [
     "Coq 8.16.1 kernel incl. vm_compute for the reflective obligations over the generated grammar program / documented grammar / accessor table",
